@@ -613,7 +613,10 @@ class HTTP1Connection(httputil.HTTPConnection):
         data_str = _LEADING_EMPTY_LINES.sub("", native_str(data.decode("latin1")))
         # RFC 7230 section allows for both CRLF and bare LF.
         eol = data_str.find("\n")
-        start_line = data_str[:eol].rstrip("\r")
+        start_line = data_str[:eol]
+        if start_line.endswith("\r"):
+            # Remove the CR of the CRLF terminator only (not stray CRs).
+            start_line = start_line[:-1]
         headers = httputil.HTTPHeaders.parse(data_str[eol:])
         return start_line, headers
 
